@@ -3,7 +3,8 @@ import ScsiVerif.Std.Cdb
 # Std.Target — a standards-conformant block target (oracle for C12)
 
 Decodes CDBs **by byte position** as SBC/SPC lay them out (independently of the library's tables),
-keeps a block map, answers READ/WRITE/WRITE SAME (10/12/16), SYNCHRONIZE CACHE, READ CAPACITY
+keeps a block map, answers READ/WRITE (10/12/16), WRITE SAME (10/16; WSNZ = 0: a block count of zero means
+"to the end of the medium"), SYNCHRONIZE CACHE, READ CAPACITY
 (10/16), INQUIRY, TEST UNIT READY.  Anything else, or an out-of-range access, is CHECK CONDITION.
 -/
 namespace Std.Target
@@ -13,7 +14,8 @@ abbrev Bytes := List Nat
 structure T where
   blockSize : Nat
   capacity : Nat                    -- number of logical blocks
-  blocks : List (Nat × Bytes)       -- written blocks (latest first); unwritten blocks read as zeros
+  blocks : List (Nat × Nat × Bytes) -- written extents (first LBA, end LBA exclusive, contents of each block), latest first;
+                                    -- unwritten blocks read as zeros
   pdt : Nat                         -- peripheral device type reported by INQUIRY
   vendor : Bytes                    -- 8 bytes
   product : Bytes                   -- 16 bytes
@@ -21,8 +23,8 @@ structure T where
 
 /-- the abstract disk: logical block address ↦ contents -/
 def disk (t : T) (lba : Nat) : Bytes :=
-  match t.blocks.find? (·.1 == lba) with
-  | some b => b.2
+  match t.blocks.find? (fun e => decide (e.1 ≤ lba ∧ lba < e.2.1)) with
+  | some e => e.2.2
   | none => List.replicate t.blockSize 0
 
 def be (cdb : Bytes) (off n : Nat) : Nat := beValue ((cdb.drop off).take n)
@@ -34,9 +36,12 @@ def chunks (bs : Nat) : Nat → Bytes → List Bytes
   | 0, _ => []
   | n + 1, d => d.take bs :: chunks bs n (d.drop bs)
 
+/-- every block from `lba` to the end of the medium gets the contents `b` -/
+def fillToEnd (t : T) (lba : Nat) (b : Bytes) : T := { t with blocks := (lba, t.capacity, b) :: t.blocks }
+
 def writeBlocks (t : T) (lba : Nat) : List Bytes → T
   | [] => t
-  | b :: rest => writeBlocks { t with blocks := (lba, b) :: t.blocks } (lba + 1) rest
+  | b :: rest => writeBlocks { t with blocks := (lba, lba + 1, b) :: t.blocks } (lba + 1) rest
 
 def readBlocks (t : T) (lba : Nat) : Nat → Bytes
   | 0 => []
@@ -80,8 +85,9 @@ def step (t : T) (cdb dataout : Bytes) (datainLen : Nat) : T × Reply :=
       let (lba, nb) := addr cdb
       let ndob := op = 0x93 ∧ (be cdb 1 1) % 2 = 1
       let blk := if ndob then List.replicate t.blockSize 0 else dataout
+      -- WSNZ = 0, no MAXIMUM WRITE SAME LENGTH: NUMBER OF LOGICAL BLOCKS 0 means "to the last logical block of the medium"
       if lba + nb ≤ t.capacity ∧ blk.length = t.blockSize then
-        (writeBlocks t lba (List.replicate nb blk), ⟨.good, []⟩)
+        (if nb = 0 then fillToEnd t lba blk else writeBlocks t lba (List.replicate nb blk), ⟨.good, []⟩)
       else (t, sense)
     else if op = 0x35 ∨ op = 0x91 then (t, ⟨.good, []⟩)
     else if op = 0x00 then (t, ⟨.good, []⟩)
